@@ -613,7 +613,7 @@ func c13SelectionHelperForm(c *Ctx, gc *ssa.Function, sni ssa.Instruction, a alp
 	for _, r := range refs(a.call.(ssa.Value)) {
 		if ifi, ok := r.(*ssa.If); ok {
 			for _, in := range ifi.Block().Succs[0].Instrs {
-				if ret, isR := in.(*ssa.Return); isR && len(ret.Results) >= 1 && stripIface(unspill(ret, 0)) == stripIface(recv) {
+				if ret, isR := in.(*ssa.Return); isR && isReturn(in) && len(ret.Results) >= 1 && stripIface(unspill(ret, 0)) == stripIface(recv) {
 					first = true
 				}
 			}
